@@ -124,6 +124,12 @@ fn line_tags(line: &[u8], first: bool) -> Vec<String> {
         add("fence");
     } else if line[0] == b'`' {
         add("backtick");
+    } else if line[0] == b' ' {
+        // a run of >= 3 backticks behind leading blanks (a fence nested in a list item)
+        let blanks = line.iter().take_while(|b| **b == b' ').count();
+        if line[blanks..].starts_with(b"```") {
+            add(if blanks <= 3 { "indented-fence" } else { "indented-fence4" });
+        }
     }
     if line[0] == b'#' {
         add("hash");
@@ -237,7 +243,15 @@ fn case_tags(case: &C09Case) -> Vec<String> {
 // ---------------------------------------------------------------------------------------------
 
 fn hostile_line(rng: &mut Rng, k: usize) -> Vec<u8> {
-    let s: Vec<u8> = match rng.below(64) {
+    let s: Vec<u8> = match rng.below(72) {
+        64 => b" ```".to_vec(),
+        65 => b"  ```sh".to_vec(),
+        66 => b"   ````".to_vec(),
+        67 => format!("  `````text {k}").into_bytes(),
+        68 => b"    ```".to_vec(),
+        69 => format!("     ```` x{k}").into_bytes(),
+        70 => b"   ```".to_vec(),
+        71 => b"      ``````python".to_vec(),
         0 => b"".to_vec(),
         1 => b"   ".to_vec(),
         2 => b" ".to_vec(),
@@ -766,6 +780,8 @@ impl Monitor for C09 {
             ("original:malformed-output".into(), tier.pick(1000, 80_000)),
             ("original:invalid-exit-code".into(), tier.pick(250, 20_000)),
             ("kept-original-expectation".into(), tier.pick(150, 10_000)),
+            ("cls:indented-fence".into(), tier.pick(200, 12_000)),
+            ("cls:indented-fence4".into(), tier.pick(100, 6_000)),
         ];
         p.assumptions = vec![
             "in-process part only: `scrut create` / `scrut update` end to end are not driven here".into(),
